@@ -14,8 +14,9 @@ RUST = {
     "RR": "Result<Result<u32, u8>, u8>", "P": "u32", "V": "Vec<u32>", "VV": "(Vec<u32>, Vec<u32>)", "B": "bool",
     "U": "usize", "T2O": "(Option<u32>, Option<u32>)", "VP": "Vec<(u32, u32)>", "VE": "Vec<(usize, u32)>",
     "PR": "&u32", "E": "u8", "N": "()", "PP": "(u32, u32)", "OREF": "&Option<u32>", "RREF": "&Result<u32, u8>",
+    "OV": "Option<Vec<u32>>", "RV": "Result<Vec<u32>, u8>",
 }
-TERMINAL = {"O", "OO", "OP", "R", "RR", "P", "V", "VV", "B", "U", "T2O", "VP", "VE"}
+TERMINAL = {"O", "OO", "OP", "R", "RR", "P", "V", "VV", "B", "U", "T2O", "VP", "VE", "OV", "RV"}
 ITER = {"I", "IP", "IE", "IO", "IR", "II"}
 # async worlds: futures (by output), try-future, streams (by item). Only generated inside async macros.
 FUT_OUT = {"FP": "u32", "FO": "Option<u32>", "TF": "Result<u32, u8>", "FV": "Vec<u32>", "FVV": "(Vec<u32>, Vec<u32>)", "FU": "usize"}
@@ -177,6 +178,8 @@ class G:
             add("zip", ">^>", "IP", lambda: [self.val("vec![20u32, 21, 22].into_iter()")])
             add("collect", "=>[]", "V", lambda: [("Vec<u32>", 0)], "collect/typed")
             add("collect", "=>[]", "V", lambda: [("Vec<_>", 0)], "collect/typed_infer")
+            # a collect type that is a bare path (an alias): nothing in it tells a parser where the type ends
+            add("collect", "=>[]", "V", lambda: [("VecU", 0)], "collect/alias")
             if last:
                 add("collect", "=>[]", "V", lambda: [], "collect/untyped")
                 add("partition", "?&!>", "VV", one("v", "&u32", "v", "*v > 3", "bool"))
@@ -212,6 +215,25 @@ class G:
         elif w in ("IO", "IR", "II"):
             add("flatten", "^^>", "I", lambda: [], "flatten/iter")
             add("dot", "..", "U", lambda: [("count()", 0)], "dot/count")
+            if w == "IO":
+                # collecting into Option<Vec<_>> / Result<Vec<_>, _>: the collect type is followed by `<|`, `<=`, `!>`, `<<<`
+                add("collect", "=>[]", "OV", lambda: [("OVec", 0)], "collect/alias_option")
+                add("collect", "=>[]", "OV", lambda: [("Option<Vec<u32>>", 0)], "collect/option")
+            if w == "IR":
+                add("collect", "=>[]", "RV", lambda: [("RVec", 0)], "collect/alias_result")
+                add("collect", "=>[]", "RV", lambda: [("Result<Vec<_>, u8>", 0)], "collect/result")
+        elif w == "OV":
+            add("or", "<|", "OV", lambda: [self.val(self.rng.choice(["Some(vec![7u32])", "None::<Vec<u32>>"]))], "or/optvec")
+            add("or_else", "<=", "OV", lambda: [self.cb("", "", None, self.rng.choice(["Some(vec![9u32, 8])", "None::<Vec<u32>>"]), "Option<Vec<u32>>", allow_capture=False)], "or_else/optvec")
+            add("map", "|>", "O", one("v", "Vec<u32>", "&v", "v.len() as u32", "u32"), "map/optvec")
+            add("dot", "..", "B", lambda: [("is_some()", 0)], "dot/is_some")
+            add("dot", ">.", "V", lambda: [("unwrap_or_default()", 0)], "dot/unwrap_or_default")
+        elif w == "RV":
+            add("map_err", "!>", "RV", one("e", "u8", "&e", "e.wrapping_add(1)", "u8"), "map_err/resvec")
+            add("or", "<|", "RV", lambda: [self.val(self.rng.choice(["Ok::<Vec<u32>, u8>(vec![7])", "Err::<Vec<u32>, u8>(6)"]))], "or/resvec")
+            add("or_else", "<=", "RV", one("e", "u8", "&e", "if e > 4 { Ok::<Vec<u32>, u8>(vec![e as u32]) } else { Err(e.wrapping_add(1)) }", "Result<Vec<u32>, u8>"), "or_else/resvec")
+            add("map", "|>", "R", one("v", "Vec<u32>", "&v", "v.len() as u32", "u32"), "map/resvec")
+            add("dot", "..", "OV", lambda: [("ok()", 0)], "dot/ok")
         elif w == "P":
             add("then", "->", "O", one("p", "u32", "&p", "if p > 0 { Some(p) } else { None }", "Option<u32>", annotate=True))
             add("then", "->", "R", one("p", "u32", "&p", "if p < 10 { Ok::<u32, u8>(p) } else { Err(8u8) }", "Result<u32, u8>", annotate=True))
@@ -665,6 +687,7 @@ def noalloc_transform(t):
     import re
     t = re.sub(r"vec!\[([^\]]*)\](?!\.into_iter)", r"[\1].into_iter().collect::<Bag<u32>>()", t)
     t = re.sub(r"vec!\[([^\]]*)\]", r"[\1]", t)
+    t = t.replace("VecU", "BagU").replace("OVec", "OBag").replace("RVec", "RBag").replace("Vec<_>, u8>", "Bag<_>, u8>")
     t = t.replace("Vec<u32>", "Bag<u32>").replace("Vec<_>", "Bag<_>").replace("Vec<(u32, u32)>", "Bag<(u32, u32)>").replace("Vec<(usize, u32)>", "Bag<(usize, u32)>")
     t = t.replace("si(", "sia(").replace("it_vec", "it_bag")
     return t
